@@ -1038,7 +1038,7 @@ class Gen:
         if n >= len(loops):
             raise LostAnchor('loop %d not found in %s' % (n, selector))
         kwtok, kind, hdr, bopen = loops[n]
-        if 'hdr' in kw and norm(kw['hdr'].lstrip('=').replace('~', ' ')) not in norm(hdr):
+        if 'hdr' in kw and hnorm(kw['hdr'].lstrip('=').replace('~', ' ')) not in hnorm(hdr):
             raise LostAnchor('loop %d of %s has header %r, expected %r' % (n, selector, hdr, kw['hdr']))
         oblig = kw['as']
         header, lins, proofs = self.parse_block(block)
@@ -1135,15 +1135,25 @@ class Gen:
             json.dump({'map': self.map, 'blocks': self.blocks}, f)
 
 
+def hnorm(h):
+    """loop headers up to the spelling of a by-reference iteration: `x in v.iter()` == `x in &v`, `x in v.iter_mut()` == `x in &mut v`"""
+    t = norm(h)
+    t = re.sub(r'\.iter_mut\(\)$', '', t)
+    t = re.sub(r'\.iter\(\)$', '', t)
+    t = re.sub(r'(^|in)&mut', r'\1', t)
+    t = re.sub(r'(^|in)&', r'\1', t)
+    return t
+
+
 def resolve_loop(loops, sel):
     """loop selector: an ordinal, or `hdr:TEXT` = the unique loop whose header contains TEXT (whitespace-insensitive, ~ = space)"""
     if isinstance(sel, int):
         return sel
     want = norm(sel[4:].replace('~', ' '))
     if want.startswith('='):     # `hdr:=TEXT`: the header IS that text
-        cand = [i for i, l in enumerate(loops) if want[1:] == norm(l[2])]
+        cand = [i for i, l in enumerate(loops) if hnorm(want[1:]) == hnorm(l[2])]
     else:
-        cand = [i for i, l in enumerate(loops) if want in norm(l[2])]
+        cand = [i for i, l in enumerate(loops) if hnorm(want) in hnorm(l[2])]
     if len(cand) != 1:
         raise LostAnchor('loop selector %r matches %d loops' % (sel, len(cand)))
     return cand[0]
